@@ -51,7 +51,61 @@ def plan_hypothesis(st):
     return all(a < b for a, b in zip(pl, pl[1:])) and all(p[0] in st["months"] for p in pl)
 
 
+def expected_static(ctx, case, static):
+    """what the planners must hold according to the CONFIGURATION (deployment years: the configured list,
+    all simulated years when it is empty; required surveys: the frequency where the method is deployed,
+    365 for stationary; months as configured).  A planner that differs is a violation of its own; every
+    later clause is evaluated against the configuration, not against what the planner believes."""
+    conf = {s_["id"]: s_ for s_ in case.get("sites", [])}
+    stationary = case["kind"] == "stationary"
+    out = []
+    for st in static:
+        cs = conf.get(st["site"])
+        if cs is None:
+            out.append(st)
+            continue
+        years = list(cs.get("years") or [])
+        e = dict(st)
+        e["dep_years"] = years if years else list(st["sim_years"])
+        if stationary:
+            e["rs"] = 365 if cs.get("deploy", True) else 0
+        else:
+            e["rs"] = (cs.get("freq") or 0) if cs.get("deploy", True) else 0
+        e["months"] = sorted(cs.get("months", st["months"]))
+        for key, sig in (("dep_years", "deployment-years"), ("rs", "required-surveys"), ("months", "deployment-months")):
+            if (sorted(e[key]) if isinstance(e[key], list) else e[key]) != \
+                    (sorted(st[key]) if isinstance(st[key], list) else st[key]):
+                ctx.violate("C06:config:planner-" + sig + "-differ-from-configuration",
+                            f"site {st['site']}: configured {key} {e[key]} (years list {years}, simulated "
+                            f"{st['sim_years']}), the planner holds {st[key]}", {"case": case, "site": st["site"]})
+        out.append(e)
+    return out
+
+
+def crews_oracle(ctx, case):
+    """the real Method must deploy exactly the configured number of crews (crew_count > 0), the documented
+    year-round estimate only when no crew count is configured"""
+    used, reports = case.get("_crews_used"), case.get("_crew_reports")
+    if used is None or case["kind"] == "stationary":
+        return
+    want = case["crews"] if case["crews"] > 0 else case.get("_crews_estimate")
+    if want is not None and (used != want or reports != want):
+        ctx.violate("C06:crews:deployed-crews-differ-from-configured",
+                    f"configured crew_count {case['crews']} (documented estimate {case.get('_crews_estimate')}): the "
+                    f"method initialised {reports} crew reports and hands {used} crews to its schedule",
+                    {"case": case})
+
+
+def in_calendar(st, ymd):
+    return ymd is not None and ymd[0] in st["dep_years"] and ymd[1] in st["months"]
+
+
 def oracle_trace(ctx, case, static, trace, feasible=False):
+    static = expected_static(ctx, case, static)
+    crews_oracle(ctx, case)
+    conf_cap = None
+    if case["kind"] == "routine" and case.get("_cap_used") is not None and case.get("crews", 0) > 0:
+        conf_cap = case["crews"] * case["_cap_used"]   # configured crews x daily capacity
     stat = {st["site"]: st for st in static}
     conf = {s_["id"]: s_ for s_ in case.get("sites", [])}
     issued_on = {}     # site -> date of the outstanding request
@@ -128,13 +182,21 @@ def oracle_trace(ctx, case, static, trace, feasible=False):
                         ctx.violate("C06:stationary:observed-iff-workable",
                                     f"site {i} on {rec['date']}: workable={ok}, observation completed="
                                     f"{outs_today.get(i) == 'C'} (planned={i in rec['plan']})", inp)
+        # ---- configured crews suffice for everything outstanding today => nothing may wait
+        if conf_cap is not None and "queue_after_take" in rec:
+            outstanding = len(rec["plan"]) + len(rec["queue_after_take"])
+            if outstanding <= conf_cap and rec["queue_after_take"]:
+                ctx.violate("C06:feasible:request-waits-although-configured-crews-suffice",
+                            f"{outstanding} outstanding requests on {rec['date']}, configured crews x capacity = "
+                            f"{conf_cap}, yet {[e[2] for e in rec['queue_after_take']]} stay in the queue "
+                            f"(plan {rec['plan']})", inp)
         # ---- calendar membership of every survey worked on today
         for o in rec["outcomes"]:
             i, stt = o[0], o[1]
             if stt not in "CP":
                 continue
             st = stat[i]
-            carried = issued_on.get(i) != (y, m, d)
+            carried = issued_on.get(i) != (y, m, d) and in_calendar(st, issued_on.get(i))
             if y not in st["dep_years"]:
                 ctx.violate(SIG_YEAR if carried else "C06:calendar:survey-outside-deployment-year",
                             f"site {i} surveyed on {rec['date']} (request of {issued_on.get(i)}), "
@@ -158,7 +220,7 @@ def oracle_trace(ctx, case, static, trace, feasible=False):
                 if n != before and yy != y:
                     ctx.violate("C06:count:wrong-counter-year", f"site {i}: counter of {yy} moved on {rec['date']}", inp)
                 if n > required_of(st, yy) and not stationary and n != before:
-                    carried = issued_on.get(i, (None,))[0] != yy
+                    carried = issued_on.get(i, (None,))[0] != yy and in_calendar(st, issued_on.get(i))
                     if required_of(st, yy) == 0 and carried:
                         ctx.violate(SIG_COUNT0, f"site {i}: survey requested on {issued_on.get(i)} completed on "
                                     f"{rec['date']}: done {n} > required 0 in {yy}", inp)
@@ -184,7 +246,7 @@ def oracle_trace(ctx, case, static, trace, feasible=False):
                 ctx.violate("C06:count:booked-year-differs-from-completion-year",
                             f"site {i}: survey completed on {rec['date']} was booked on year(s) {booked}", inp)
             if not stationary and by_report[(i, y)] > required_of(st, y):
-                carried = issued_on.get(i, (None,))[0] != y
+                carried = issued_on.get(i, (None,))[0] != y and in_calendar(st, issued_on.get(i))
                 if required_of(st, y) == 0 and carried:
                     ctx.violate(SIG_COUNT0, f"site {i}: survey requested on {issued_on.get(i)} completed on "
                                 f"{rec['date']}: 1 completed report > required 0 in {y}", inp)
@@ -251,12 +313,17 @@ def loop_case(rng, feasible=False, stationary=False):
     years_all = list(range(start[0], end[0] + 1))
     sites = []
     for i in range(ns):
-        yrs = rng.choice([[], [], [], years_all[:1], years_all[:2], years_all[-1:], years_all])
+        yrs = rng.choice([[], [], [], years_all[:1], years_all[:2], years_all[-1:], years_all,
+                          [end[0] + 1, end[0] + 2],                    # disjoint from the simulated years
+                          [start[0] - 1, start[0] + 1],                # partially overlapping
+                          [start[0] - 2, start[0] - 1],                # entirely before
+                          years_all + [end[0] + 1]])                   # reaching beyond the end
         sites.append({"id": i + 1, "freq": rng.choice([None, 1, 2, 3, 4, 6, 12, 24] if not feasible else [1, 2, 3, 4, 6, 12, 24]),
                       "deploy": rng.random() < 0.9, "months": month_subset(rng), "years": yrs,
                       "S": 60})
     case = {"kind": "stationary" if stationary else "routine", "method_class": "site", "start": start, "end": end,
-            "ndays": nd, "crews": rng.choice([1, 1, 2]), "cap": rng.choice([1, 2, 5]) if not feasible else 6,
+            "ndays": nd, "crews": rng.choice([1, 1, 2, 3, 4, 0]) if not feasible else rng.choice([1, 2, 3]),
+            "cap": rng.choice([1, 2, 5]) if not feasible else 6,
             "T": 0, "hours": 8, "sites": sites, "weather": []}
     forced = []
     if not feasible and not stationary:
